@@ -64,6 +64,9 @@ func genPlan(rng *rand.Rand, seed uint64, vt bool) prodwl.Plan {
 	if p.Idempotent && rng.IntN(4) == 0 {
 		p.AllowCancel = true
 	}
+	if rng.IntN(3) == 0 {
+		p.MetaErr = true // records buffered on a partition in a metadata load-error state, purged meanwhile
+	}
 	return p
 }
 
@@ -201,20 +204,8 @@ func TestCheck(t *testing.T) {
 		r.Count("vt_unavailable_build_without_synctests", 1)
 	}
 	overlaps := map[string]bool{}
-	vh.Parallel(nRT, 8, func(i int) {
-		rng := r.Rand("c01-rt", i)
-		plan := genPlan(rng, uint64(r.Seed)<<20|uint64(i), false)
-		t0 := time.Now()
-		res := prodwl.Run(plan, 60*time.Second)
-		judge(r, res, "rt")
-		fmt.Printf("rt scenario %d: %.1fs wall quiesced=%v closed=%v inconcl=%v\n", i, time.Since(t0).Seconds(), res.Quiesced, res.Closed, res.Inconcl)
-		r.Eval(1)
-		r.Count("scenarios_rt", 1)
-		for k := range res.Overlap {
-			r.Count("api_overlap_seen:"+k, 1)
-			_ = overlaps
-		}
-	})
+	// virtual time first: its verdicts do not depend on wall-clock watchdogs, so a defect that
+	// makes scenarios hang is reported before the real-time scenarios spend their watchdogs on it
 	for i := 0; i < nVT; i++ {
 		rng := r.Rand("c01-vt", i)
 		plan := genPlan(rng, uint64(r.Seed)<<20|uint64(1<<19+i), true)
@@ -239,6 +230,20 @@ func TestCheck(t *testing.T) {
 		r.Eval(1)
 		r.Count("scenarios_vt", 1)
 	}
+	vh.Parallel(nRT, 8, func(i int) {
+		rng := r.Rand("c01-rt", i)
+		plan := genPlan(rng, uint64(r.Seed)<<20|uint64(i), false)
+		t0 := time.Now()
+		res := prodwl.Run(plan, 60*time.Second)
+		judge(r, res, "rt")
+		fmt.Printf("rt scenario %d: %.1fs wall quiesced=%v closed=%v inconcl=%v\n", i, time.Since(t0).Seconds(), res.Quiesced, res.Closed, res.Inconcl)
+		r.Eval(1)
+		r.Count("scenarios_rt", 1)
+		for k := range res.Overlap {
+			r.Count("api_overlap_seen:"+k, 1)
+			_ = overlaps
+		}
+	})
 	r.Finish("exploration",
 		"one evaluation = one seeded producer scenario (client options x API mix x cancellation x Flush/Abort/Purge/Close x broker fault plan) run against kfake behind faultnet, RT (loopback TCP) or VT (synctest bubble, virtual time); non-trivial = at least one injected fault fired, at least one promise succeeded and one failed, and an abort/purge/close/cancel overlapped in-flight records; distinct by (mode, fault kinds fired, promise error classes, ops)",
 		"kfake is the broker (checked separately by C29/C32)",
